@@ -80,7 +80,7 @@ def r91(ctx, prog, label=''):
                     if c.get('local') and c['name'] == 'expect_operator_argument_amount':
                         return OK(('tuple', ()))
                     return None
-                it = Interp(prog, hook=hook, max_depth=2)
+                it = Interp(prog, hook=hook, max_depth=5)
                 try:
                     paths = it.paths(f, [selfv, SYM('arguments'), SYM('context')])
                 except Budget:
@@ -235,24 +235,50 @@ def r95(ctx, prog):
     ctx.sample(dict(rule='R9.5', classification={str(k): sorted(x[3] for x in v) for k, v in list(sem['ident_next'].items())[:8]}))
 
 
+_NAMES = {}
+
+
 def builtin_names(prog):
+    """the names builtin_function resolves. Candidates are the string constants of the module's functions (the look-up may be split
+    over several functions, or keyed without a namespace prefix it strips first), alone and behind the documented namespace
+    prefixes; a candidate is a builtin name when builtin_function, interpreted on it, returns Some(..)."""
+    key = id(prog)
+    if key in _NAMES:
+        return _NAMES[key]
     f = prog.fn('function::builtin::builtin_function')
     if f is None:
         return None
-    names = set()
-    for b, t in f.calls():
-        if t['callee']['name'] in ('eq', 'ne') and len(t['args']) == 2:
+    consts = set()
+    for g in prog.fns:
+        if g.kind == 'Closure' or not short(g.path).startswith('function::builtin::'):
+            continue
+        for b, t in g.calls():
             for a in t['args']:
                 v = const_value(a)
                 if isinstance(v, str):
-                    names.add(v)
-    # string patterns may also be lowered to direct comparisons of constants in statements
-    for blk in f.blocks:
-        for st in blk['stmts']:
-            if st['k'] == 'assign' and st['rv']['k'] == 'use':
-                v = const_value(st['rv']['op'])
-                if isinstance(v, str) and ('::' in v or v.isidentifier()):
-                    names.add(v)
+                    consts.add(v)
+        for blk in g.blocks:
+            for st in blk['stmts']:
+                if st['k'] == 'assign' and st['rv']['k'] == 'use':
+                    v = const_value(st['rv']['op'])
+                    if isinstance(v, str):
+                        consts.add(v)
+    cands = set()
+    for v in consts:
+        if 0 < len(v) <= 40 and all(ch.isalnum() or ch in '_:' for ch in v):
+            cands.add(v)
+            if '::' not in v:
+                for pre in ('math::', 'str::'):
+                    cands.add(pre + v)
+    names = set()
+    for n in sorted(cands):
+        try:
+            ps = Interp(prog, max_depth=4).paths(f, [C(n)])
+        except Budget:
+            continue
+        if ps and all(is_adt(p[0], 'option::Option', 'Some') for p in ps if p[0] != ('diverge',)):
+            names.add(n)
+    _NAMES[key] = names
     return names
 
 
